@@ -90,6 +90,16 @@ CHECKS = {
         "Trusted: unique row texts make the slice decidable; width fixed at 4 columns; depth 2/3; lists of <= 2/3 items + 6 longer ones.",
         "DESIGN.md §4 C07",
     ),
+    "C19": (
+        MC,
+        "bounded-exhaustive enumeration of option lists x dividers x minimum widths x focus x available sizes (Columns, box Pile) and of alignment x size kind x minimum x margins x available (Padding, Filler, Overlay) and GridFlow geometries, with recording self-painting probe children; every allocation judged by arithmetic clauses and by where each child is actually drawn",
+        "Every Columns option list of length <= 3 (thorough: + length 4 over 7 options) over given/packed-fixed/packed-flow/weighted/box columns x dividechars 0..2 x "
+        "min_width 1..3 x every focus x available 1..12/20 in flow and box render, plus the same Columns object re-queried across all sizes and focus positions; every "
+        "box Pile of <= 3/4 items; Padding/Filler over 19 size kinds x 9 alignments x minimum x margins 0..2 x available 1..12/18; Overlay over width kind x height kind "
+        "x aligns x margins x sizes; GridFlow 1..5/7 cells x cell width x separators x align x available.",
+        "Trusted: mc/probe.py probes (constant natural sizes); weakest readings listed in the evidence assumptions; zero weights / zero given sizes excluded by the statement's precondition.",
+        "DESIGN.md §4 C19",
+    ),
 }
 
 PENDING_REASON = "check not built yet in this round (see DESIGN.md Appendix B build order); no claim is made"
